@@ -36,6 +36,11 @@
 // argument list of that call do not move it: the frame reports the callee of
 // the call that is active, not of the call evaluated last (generated as
 // argument-list variants of every call site, see argVariants).
+// Code that temporarily switches a frame's file or offset (direct eval, indirect
+// eval, Function-constructor code, a nested script run by a host function, an
+// accessor) leaves no trace in the frame once it is done, whether it returned
+// or was left by an exception caught in that frame or further out (preceding
+// material kinds throw-*).
 // The position of the innermost frame is the error site:
 //
 //   - call / new of a non-function: start of the callee expression (pinned);
